@@ -927,6 +927,38 @@ func ruleFlushHeartbeat(c *Ctx, r *Rule) {
 			msg = "readiness additionally depends on [" + extra + "]: a non-empty batch for which it does not hold is never flushed, so its events are never finalized"
 		}
 		r.Ob(extra == "", fmt.Sprintf("%s|pure-readiness|status=%d", c.fnName(upd), k), a.in.Pos(), msg)
+		// the age clause applies to every NON-EMPTY batch, and a batch is empty by its number of events:
+		// split children and other events made by the pipeline itself have size 0, so "some bytes are
+		// waiting" is not the same thing
+		byAge := false
+		for _, l := range unitLits(c.guards(upd)[a.in.Block()]) {
+			if bo, ok := l.v.(*ssa.BinOp); ok && l.pol {
+				for _, side := range []ssa.Value{bo.X, bo.Y} {
+					if call, isCall := stripConv(side).(*ssa.Call); isCall && call.Call.StaticCallee() != nil && qualName(call.Call.StaticCallee()) == "time.Since" {
+						byAge = true
+					}
+				}
+			}
+		}
+		if byAge {
+			byCount, byBytes := false, false
+			for _, l := range unitLits(c.guards(upd)[a.in.Block()]) {
+				op, x, y, ok := cmpLit(l)
+				if !ok {
+					continue
+				}
+				if k0, isK0 := constInt(y); !isK0 || k0 != 0 || !(op == token.GTR || op == token.NEQ) {
+					continue
+				}
+				if call, isLen := isBuiltinCall(instrOf(stripConv(x)), "len"); isLen && isLoadOfField(stripConv(call.Call.Args[0]), pipelinePkg, "Batch", "events") {
+					byCount = true
+				}
+				if isLoadOfField(stripConv(x), pipelinePkg, "Batch", "eventsSize") {
+					byBytes = true
+				}
+			}
+			r.Ob(byCount && !byBytes, fmt.Sprintf("%s|age-applies-to-any-nonempty-batch", c.fnName(upd)), a.in.Pos(), "a batch becomes ready by age whenever it holds at least one event (emptiness judged by the number of events, not by their byte size: split children have size 0)")
+		}
 	}
 	// reset restarts the clock: the function re-slicing events to [:0] stores startTime = time.Now()
 	okClock := false
